@@ -142,6 +142,23 @@ pub proof fn lemma_psum_concat(a: Seq<usize>, b: Seq<usize>, i: int)
     }
 }
 
+pub proof fn lemma_seg_range(k: Seq<usize>, i: int, j: int)
+    requires 0 <= i < k.len(), 0 <= j < k[i]
+    ensures 0 <= seg_at(k, i, j) < total(k), psum(k, i) >= 0, psum(k, i + 1) == psum(k, i) + k[i], psum(k, i + 1) <= total(k)
+{
+    lemma_psum_mono(k, 0, i);
+    lemma_psum_mono(k, i + 1, k.len() as int);
+}
+
+/// extensionality, usable for unnamed intermediate arrays: anything that agrees with k pointwise is k
+pub proof fn lemma_ext_all(k: Seq<usize>)
+    ensures forall|t: Seq<usize>| #![trigger t.len()] t.len() == k.len() && (forall|i: int| 0 <= i < k.len() ==> t[i] == k[i]) ==> t == k
+{
+    assert forall|t: Seq<usize>| #![trigger t.len()] t.len() == k.len() && (forall|i: int| 0 <= i < k.len() ==> t[i] == k[i]) implies t == k by {
+        assert(t =~= k);
+    }
+}
+
 /// a position-unique decomposition: segments do not overlap
 pub proof fn lemma_seg_unique(k: Seq<usize>, i1: int, j1: int, i2: int, j2: int)
     requires 0 <= i1 < k.len(), 0 <= i2 < k.len(), 0 <= j1 < k[i1], 0 <= j2 < k[i2],
